@@ -26,7 +26,7 @@ static uint8_t KEYS[2][48];
 enum { M_KEY, M_TWEAK, M_SWAP, M_BADTWEAK, M_USE };
 typedef struct { int type, a, b, c; } MOp;
 static MOp m_ops[64]; static int m_nops;
-static uint8_t M_TW[6][8]; static int M_TWNULL[6]; static int m_ntw;
+static uint8_t M_TW[12][8]; static int M_TWNULL[12]; static int m_ntw;
 static int m_par;   /* 0: MantisKey_t world, 1: parallel object world */
 static int m_be;    /* back end of the parallel object */
 
@@ -46,6 +46,11 @@ static void m_build(void)
     lcg_fill(M_TW[m_ntw], 8, 61); M_TWNULL[m_ntw++] = 0;
     lcg_fill(M_TW[m_ntw], 8, 62); M_TWNULL[m_ntw++] = 0;
     memset(M_TW[m_ntw], 0, 8); M_TWNULL[m_ntw++] = 1;
+    /* tweaks that share exactly one half with another one of the list (consecutive sector numbers do): R1's first
+     * half with R2's second, R1's second half after zeros, R1's first half before zeros */
+    lcg_fill(M_TW[m_ntw], 8, 61); { uint8_t t2[8]; lcg_fill(t2, 8, 62); memcpy(M_TW[m_ntw] + 4, t2 + 4, 4); } M_TWNULL[m_ntw++] = 0;
+    lcg_fill(M_TW[m_ntw], 8, 61); memset(M_TW[m_ntw], 0, 4); M_TWNULL[m_ntw++] = 0;
+    lcg_fill(M_TW[m_ntw], 8, 61); memset(M_TW[m_ntw] + 4, 0, 4); M_TWNULL[m_ntw++] = 0;
     for (k = 0; k < 2; ++k) for (r = 5; r <= 8; ++r) for (md = 0; md < 2; ++md) {
         m_ops[m_nops].type = M_KEY; m_ops[m_nops].a = k; m_ops[m_nops].b = r; m_ops[m_nops].c = md; ++m_nops;
     }
@@ -232,6 +237,10 @@ static void t_build(void)
     lcg_fill(t, 16, 71); t_addtw(t, B, 0);
     lcg_fill(t, 16, 72); t_addtw(t, B, 0);
     for (l = 1; l < B; ++l) { lcg_fill(t, 16, 100 + (uint32_t)l); t_addtw(t, l, 0); }
+    /* short tweaks that are prefixes of the full-length R1 (the same buffer passed once with the full and once with a
+     * smaller size), and a short all-ones one */
+    lcg_fill(t, 16, 71); t_addtw(t, 1, 0); t_addtw(t, B / 2, 0); t_addtw(t, B - 1, 0);
+    memset(t, 0xFF, 16); t_addtw(t, B / 2, 0);
     t_addtw(NULL, 1, 1); t_addtw(NULL, B, 1);
     t_nbase = t_ntw;
     if (tier_thorough())            /* BYTE over the tweak */
